@@ -455,12 +455,12 @@ class Infer:
         if kind == "unpack":
             src, idx = b[1], b[2]
             if src[0] == "iter":
-                rows = self._literal_rows(src[1])
+                rows, rscope = self._literal_rows(src[1], f)
                 if rows is not None:
                     out = set()
                     for r in rows:
                         if isinstance(r, (ast.Tuple, ast.List)) and idx < len(r.elts):
-                            out |= self.type_of(r.elts[idx], f)
+                            out |= self.type_of(r.elts[idx], rscope)
                         else:
                             return UNK
                     return frozenset(out)
@@ -493,10 +493,21 @@ class Infer:
             return UNK
         return UNK
 
-    def _literal_rows(self, it):
+    def _literal_rows(self, it, scope=None):
+        """(rows, scope in which they are typed) of a literal table, also when
+        it lives in a module-level constant."""
         if isinstance(it, (ast.Tuple, ast.List)):
-            return it.elts
-        return None
+            return it.elts, scope
+        if isinstance(it, ast.Name) and scope is not None:
+            f = scope if isinstance(scope, Func) else None
+            while f is not None:
+                if it.id in f.locals():
+                    return None, scope
+                f = f.parent
+            r = self.prog.resolve_global(self._mod(scope), it.id)
+            if r and r[0] == "const" and isinstance(r[2], (ast.Tuple, ast.List)):
+                return r[2].elts, r[1]
+        return None, scope
 
     def _param_type(self, f, p):
         sp = f.self_param()
@@ -741,12 +752,12 @@ class Infer:
         if b[0] == "iter":
             return self.iter_strings(b[1], f, depth + 1)
         if b[0] == "unpack" and b[1][0] == "iter":
-            rows = self._literal_rows(b[1][1])
+            rows, rscope = self._literal_rows(b[1][1], f)
             if rows is not None:
                 out = set()
                 for r in rows:
                     if isinstance(r, (ast.Tuple, ast.List)) and b[2] < len(r.elts):
-                        got = self.possible_strings(r.elts[b[2]], f, depth + 1)
+                        got = self.possible_strings(r.elts[b[2]], rscope, depth + 1)
                         if got is None:
                             return None
                         out |= got
